@@ -3,6 +3,7 @@ import VaxisModel.Model.C12Compose
 import VaxisModel.Model.EmuIO
 import VaxisModel.Model.C12Replies
 import VaxisModel.Model.C12Read
+import VaxisModel.Model.C12Ref
 
 /-! Driver for C12: a Vaxis application rendered into the embedded terminal emulator.
 Uses the C01 driver's state for `caps`/`size`/`dict`/`cell`/`showcursor`/`hidecursor` lines, plus:
@@ -68,6 +69,10 @@ structure St where
   merges : List (String × String × String) := []
   /-- the application's screen and cursor of the frame just rendered (for the read-back verdict) -/
   want : Option (List (List DCell) × Option (Int × Int × Int)) := none
+  /-- the reference terminal of C06 (`Spec.Term`) run next to the emulator on the renderer model's tokens
+      (`Props/C12Bridge.emu_and_term_show`); `trefLost`: a step was not accepted with exactly one state -/
+  tref : Option VaxisModel.Spec.Term.T := none
+  trefLost : Bool := false
   deriving Inhabited
 
 def C05diff (m i : String) : String × String :=
@@ -111,7 +116,10 @@ def modelFrame (s : St) (next : Grid) (forceRefresh : Bool) : St :=
                  | .ok e' => (some e', s.emuDead)
                  | .error _ => (none, true))
     | none => (none, s.emuDead)
-  { s with base := { b with last := last', refresh := false, cl := b.cn, shapeL := b.shapeN }, emuM := em, emuDead := dead }
+  let tref' := s.tref.bind fun t =>
+    VaxisModel.Model.C12Ref.refRun t (mtoks.filterMap (VaxisModel.Model.C12Ref.refTok decHex (C01.cwOf b.dict)))
+  { s with base := { b with last := last', refresh := false, cl := b.cn, shapeL := b.shapeN }, emuM := em, emuDead := dead,
+           tref := tref', trefLost := s.trefLost || (s.tref.isSome && tref'.isNone) }
 
 def fullCaps : Caps := { rgb := true, styledUnderlines := true, explicitWidth := false, sync := false }
 
@@ -236,7 +244,9 @@ def step (s : St) (line : String) : St × String :=
       (s, s!"chk\tchk\t{v}")
   | ["emuadopt"] =>
       match VaxisModel.Model.EmuIO.parseSnap? impl with
-      | some sn => ({ s with emuM := some sn.e, emuDead := false }, "-\t-\t-")
+      | some sn =>
+        ({ s with emuM := some sn.e, emuDead := false,
+                  tref := some (VaxisModel.Model.C12Ref.refOf sn.e sn.e.height.toNat sn.e.width.toNat), trefLost := false }, "-\t-\t-")
       | none => (s, "-\tunparsed\tFAIL unparsed emulator snapshot")
   | ["emuresize", w, h] =>
       match VaxisModel.Model.EmuIO.parseSnap? impl, w.toInt?, h.toInt? with
@@ -251,7 +261,8 @@ def step (s : St) (line : String) : St × String :=
                s!"{a}\t{b}\t{v}"
              | .error _ => s!"model-panic\t{istr}\t{v}")
           | none => "-\t-\t-"
-        ({ s with emuM := some sn.e, emuDead := false, want := none }, out)
+        ({ s with emuM := some sn.e, emuDead := false, want := none,
+                  tref := some (VaxisModel.Model.C12Ref.refOf sn.e sn.e.height.toNat sn.e.width.toNat), trefLost := false }, out)
       | _, _, _ => (s, "-\tunparsed\tFAIL unparsed emulator snapshot")
   | ["emustate"] =>
       match VaxisModel.Model.EmuIO.parseSnap? impl with
@@ -267,6 +278,16 @@ def step (s : St) (line : String) : St × String :=
             else if VaxisModel.Model.C12Read.readCursor sn.e != cur then
               "FAIL read-back of the emulator's cursor (readCursor) is not the requested cursor"
             else "ok"
+        -- the conclusion of `Props/C12Bridge.emu_and_term_show`, evaluated on the real emulator's state: the reference
+        -- terminal of C06 (Spec.Term), fed the renderer model's tokens of every frame so far, accepts that state
+        let rb := if rb != "ok" then rb else
+          if s.trefLost then "FAIL the reference terminal (Spec.Term) did not accept a step of the renderer's tokens with exactly one state"
+          else match s.tref with
+            | none => rb
+            | some t =>
+              match VaxisModel.Model.C12Ref.refAccepts t sn.e sn.e.width.toNat with
+              | some why => s!"FAIL the reference terminal (Spec.Term fed the renderer model's tokens) does not accept the emulator's {why}"
+              | none => "ok"
         -- also compared when a frame of this case already failed the oracle (known findings F112b / F112d):
         -- the MODELS reproduce those too (the wire models the parser's clustering, `opsOfToksM`)
         let out := match s.emuM with
